@@ -92,7 +92,8 @@ CLAIMS["C10"] = proof(
     "Mutex and Semaphore proved in full for histories: C10_mutex_no_trace — after any history (futures cancelled unpolled, pending, starved, notified-but-not-repolled or completed, in any order), in every reachable state with no guard alive "
     "and nothing pending (completed futures may stay alive) the state word is 0, lock_ops has no entry and try_lock succeeds; C10_sem_no_trace — the event has no entry and count + forgotten = initial + added, so every permit is in the "
     "counter for try_acquire. RwLock: with nothing alive both words are 0 (C10_rw_words_partial; all try_* succeed, C14_free_lock_succeeds) and lock_ops / no_readers / no_writer hold no entry (C10_rw_events); after every cancellation "
-    "(incl. an announced writer or an upgrade: bit cleared, reader woken, inner mutex released) the C06 liveness invariant holds (C06_invariant). Schedule half not proved. " + CORR, NOTE)
+    "(incl. an announced writer or an upgrade: bit cleared, reader woken, inner mutex released) the C06 liveness invariant holds (C06_invariant). "
+    "Schedule half for the Mutex proved: C10_mutex_no_trace_sched — on the micro-step machine of C05, for every schedule, once every future has been dropped (in whatever state: pending, starved — two-step drop —, notified) or was never polled, no guard is alive and nothing is in flight, the word is 0 and lock_ops is empty; the cancellation actions are also part of the machines of C06, C07, C08, C09 (their no-lost-wake-up theorems hold with cancellation at every point between polls). " + CORR, NOTE)
 
 CLAIMS["C09"] = proof(
     "History half proved as a refinement: C09_refines — for every n < 2^64 and every history of fewer than 2^64-2 operations (waits created, polled with any wakers, spuriously, in any order, dropped anywhere, completed waits kept alive) "
@@ -142,7 +143,8 @@ CLAIMS["C06"] = proof(
 CLAIMS["C12"] = proof(
     "History half proved: C12_writer_announced — quiescent, a polled write() or upgrade pending, no write/upgradable guard alive => a writer has announced itself (nH = 1, WRITER_BIT set); C12_bit_iff — WRITER_BIT is set exactly while a write "
     "guard is alive or a writer/upgrader is announced; C12_try_read_fails — then try_read returns None; C12_reader_blocked — then every poll of every read() future returns Pending (whatever its cached state, notified or not). The bit is "
-    "cleared only by write_unlock, the downgrades of a write guard and the cancellation of the announced writer (site lists pinned by Tie_Raw/Tie_RwFutures); the announced writer completes when the last reader leaves (C06 (d)). Schedule half not proved. " + CORR, NOTE)
+    "cleared only by write_unlock, the downgrades of a write guard and the cancellation of the announced writer (site lists pinned by Tie_Raw/Tie_RwFutures); the announced writer completes when the last reader leaves (C06 (d)). "
+    "Schedule half of the blocking clause proved: C12_blocked_sched — on the machine of C02_excl_sched (atomic operations on the state word, any number of threads, every schedule) while a writer is announced every reader compare_exchange, with any expected value that has the bit clear, however stale, fails and changes nothing. " + CORR, NOTE)
 
 CLAIMS["C17"] = proof(
     "History half proved for all five primitives: C17_{semaphore,mutex,rwlock,oncecell,barrier}_settle — from every reachable state (after any history), ANY sequence of settle polls (each re-polls, with any waker, a future that is "
